@@ -69,8 +69,11 @@ void remove_extra_returns()
          {
             Chunk *semicolon = pc->GetNextNcNnl();
 
+            // only the last statement of the function is superfluous, and a label needs a statement behind it
             if (  semicolon->IsNotNullChunk()
-               && semicolon->Is(CT_SEMICOLON))
+               && semicolon->Is(CT_SEMICOLON)
+               && semicolon->GetNextNcNnl() == closing_brace
+               && pc->GetPrevNcNnl()->IsNot(CT_LABEL_COLON))
             {
                LOG_FMT(LRMRETURN, "%s(%d): Removed 'return;' on orig line %zu\n",
                        __func__, __LINE__, pc->GetOrigLine());
